@@ -38,6 +38,8 @@ def wk(label):
 
 
 class Session(BusSession):
+    COUNTER_ATTRS = ('token',)
+
     def __init__(self, params):
         BusSession.__init__(self, params)
         self.state = {l: 'closed' for l in CLIENTS}     # closed | connected | registered
